@@ -268,7 +268,9 @@ Definition nf_mk_stashed ty force : nf_stashed := {| sh_type := ty; sh_force := 
 (* Checkable::SendNotifications for this notification object; [force] = force_next_notification *)
 Definition nf_request (c : nf_cfg) (now : Z) (x : nf_ctx) (ty : nf_type) (force : bool) (s : nf_state)
   : nf_state * list nf_ev :=
-  if (negb (cx_glob_en x) || negb (cx_ck_en x)) && negb force then (s, [NfEvDrop ty])
+  if (negb (cx_glob_en x) || negb (cx_ck_en x)) && negb force then
+    (* 43-62; clearing notified_problem_users of the non-paused objects for a Recovery is the fix b86ebcb *)
+    (if nf_type_eqb ty NfRecovery && negb (cx_paused x) then nf_set_npu s [] else s, [NfEvDrop ty])
   else if cx_auth x then
     if negb (cx_paused x) then
       match nf_stash s with
